@@ -20,7 +20,9 @@ Params == CASE Kind = "uniform"    -> {"energy_density", "laser_length", "laser_
             [] Kind = "gaussbeam"  -> {"pulse_energy", "pulse_length", "waist_z", "stddev_waist", "laser_wavelength", "laser_length", "laser_radius", "polarization"}
             [] Kind = "constspec"  -> {"min_wavelength", "max_wavelength", "bins"}
             [] Kind = "gaussspec"  -> {"min_wavelength", "max_wavelength", "bins", "mean", "stddev"}
-Values(p) == 1..2
+\* value id 3 = the constructor's default for the parameter (a fresh object built with id 3 omits the argument)
+HasDefaultId(p) == p \in {"energy_density", "pulse_energy", "pulse_length", "stddev_x", "stddev_y", "mean_z", "waist_z", "stddev_waist", "laser_wavelength"}
+Values(p) == IF HasDefaultId(p) THEN 1..3 ELSE 1..2
 \* ids of invalid inputs: 0 and -1 stand for a zero / negative number, -2 (spectra) for a range with min >= max
 Invalid(p) == IF p \in {"polarization", "mean_z", "waist_z", "stddev_waist", "laser_wavelength"} THEN {}
               ELSE IF p \in {"min_wavelength", "max_wavelength"} THEN {0, -1, -2} ELSE {0, -1}
@@ -32,7 +34,7 @@ Dep(c) == CASE c = "binned" -> Params
             [] c = "efun" -> Params \ {"laser_length", "laser_radius", "polarization"}
 Proj(c, pr) == [p \in Dep(c) |-> pr[p]]
 
-Init == /\ par \in [Params -> {1}] \cup [Params -> {2}]
+Init == /\ par \in [Params -> {1}] \cup [Params -> {2}] \cup (IF IsSpectrum THEN {} ELSE {[p \in Params |-> IF HasDefaultId(p) THEN 3 ELSE 1]})
         /\ cache = [c \in Caches |-> <<Proj(c, par)>>]
         /\ outcome = "ok"
         /\ hist = <<[op |-> "init", par |-> par]>>
